@@ -576,12 +576,27 @@ async fn copy_to_qcow2<T: Qcow2IoOps>(
     off: u64,
     bytes: usize,
 ) -> Qcow2Result<usize> {
-    let mut buf = Qcow2IoBuf::<u8>::new(bytes);
+    // write_at() takes whole blocks only: the tail of a source whose size is
+    // not a multiple of the (largest) block size is padded with zeros (the
+    // virtual size is a multiple of the cluster size, so the padding fits)
+    let bs = 4096;
+    let mut buf = Qcow2IoBuf::<u8>::new(bytes.div_ceil(bs) * bs);
+    buf.zero_buf();
 
     src.seek(SeekFrom::Start(off))?;
-    let res = src.read(&mut buf)?;
+    // read() may return less than asked for at any time
+    let mut res = 0;
+    while res < bytes {
+        match src.read(&mut buf[res..bytes])? {
+            0 => break,
+            n => res += n,
+        }
+    }
+    if res == 0 {
+        return Err("source file is shorter than expected".into());
+    }
 
-    dev.write_at(&buf[0..res], off).await?;
+    dev.write_at(&buf[0..res.div_ceil(bs) * bs], off).await?;
     Ok(res)
 }
 
@@ -626,12 +641,19 @@ fn convert_to_qcow2_prep(raw: &Path, qcow2: &Path) -> Qcow2Result<()> {
     let cluster_bits = 16;
     let cluster_size = 1 << cluster_bits;
     let file_orig_size = std::fs::metadata(raw).unwrap().len();
-    let file_size = (file_orig_size + cluster_size - 1) & !(cluster_size - 1);
+    // an empty source still gives an image of one (zero) cluster
+    let file_size = std::cmp::max(
+        (file_orig_size + cluster_size - 1) & !(cluster_size - 1),
+        cluster_size,
+    );
 
     let img_buf = __format_qcow2_buf(file_size, cluster_bits, 4, 4096);
+    // whatever an existing file holds behind the new meta data would be taken
+    // for tables of the new image
     let mut f = std::fs::OpenOptions::new()
         .write(true)
         .create(true)
+        .truncate(true)
         .open(qcow2)
         .unwrap();
     let res = f.write(&img_buf).unwrap();
